@@ -354,6 +354,19 @@ func checkCall(c callCase) (msg string, v string) {
 		if ncalls == 0 && out.Err == nil {
 			return fmt.Sprintf("%s with %s: not invoked but no error either (= %s)", text, sig, obs.Show(out.Val)), v
 		}
+		if ncalls == 1 && len(the.Args) == len(flat) {
+			// "anything to string by formatting": an array / map / time handed to a string parameter must arrive as
+			// the language's own string form of that value (what '' + x gives), not as something else
+			for i := range flat {
+				if ptypes[i] == "string" && (flat[i].Kind == "arr" || flat[i].Kind == "map" || flat[i].Kind == "time") {
+					want := obs.EvalText("'' + ("+flat[i].Text+")", data)
+					ws, ok := want.Val.(string)
+					if gs, isStr := the.Args[i].(string); ok && (!isStr || gs != ws) {
+						return fmt.Sprintf("%s with %s: argument %d (%s) arrived as %s, but formatting that value to a string gives %q", text, sig, i+1, flat[i].Text, obs.Show(the.Args[i]), ws), v
+					}
+				}
+			}
+		}
 	case "call":
 		if ncalls != 1 {
 			return fmt.Sprintf("%s with %s: invoked %d times, want exactly once (result %s)", text, sig, ncalls, out), v
